@@ -4,8 +4,9 @@
    in-Coq correspondence (C02/Corr.v, harness/c02.py) on every run.
    Carrier: R.  Arrays are flat lists; [tw_ok n w] says the weighting is a positive constant
    or an array of n positive entries; [tw_vec n w] is its weight vector. *)
-From Coq Require Import Reals List Bool Permutation.
+From Coq Require Import QArith Qreals Reals List Bool Permutation.
 From Verif Require Import Base.Num Base.Vec Base.VecR C02.Model C02.Proofs.
+From Verif Require Import C02.GenSyntax C02.GenSem Gen.Weighting C02.GenTie C02.Transfer.
 Import ListNotations.
 Local Open Scope R_scope.
 
@@ -85,12 +86,12 @@ Theorem tensor_dist_symmetric : forall (w : @tweight R) (p : expo) (x y : list R
 Proof. exact t_dist_v_sym. Qed.
 Print Assumptions tensor_dist_symmetric.
 
-(* the call-level functions return exactly these values (no exception) on non-empty data *)
-Theorem tensor_calls_total : forall q blas (w : @tweight R) (p : expo) (x y : list R),
-  x <> [] -> length x = length y ->
+(* the call-level functions return exactly these values and never raise, empty arrays included
+   (norm 0: fix commits 9526a83 / 6e7d07d made this the behaviour of the code) *)
+Theorem tensor_calls_total : forall (w : @tweight R) (p : expo) (x y : list R),
   t_inner w (PFin 2) x y = Ok (t_inner_v w x y) /\
-  t_norm q blas w p x = Ok (t_norm_v w p x) /\
-  t_dist q blas w p x y = Ok (t_norm_v w p (vsub x y)).
+  t_norm w p x = Ok (t_norm_v w p x) /\
+  t_dist w p x y = Ok (t_norm_v w p (vsub x y)).
 Proof. exact t_calls_total. Qed.
 Print Assumptions tensor_calls_total.
 
@@ -123,21 +124,21 @@ Print Assumptions quadrature_weights_sum_to_volume.
 
 (* ... hence <one, one> = ||one||^2 = domain volume, at the level of DiscretizedSpace._inner
    with the default weighting.  FULL statement (no side condition on the cell volume):
-     forall q blas axes, Forall ax_ok axes -> Forall ax_exact axes -> axes <> [] ->
-       leaf_inner q (LDiscr blas axes LDefault (PFin 2)) ones ones = Ok (extent_volume axes)
+     forall q axes, Forall ax_ok axes -> Forall ax_exact axes -> axes <> [] ->
+       leaf_inner q (LDiscr axes LDefault (PFin 2)) ones ones = Ok (extent_volume axes)
    It is FALSE of the faithful model for today's code (q_unweighted_skips = true) when the
    cell volume is exactly 1: finding discr-unit-cell-volume-skips-bdry-fractions. *)
-Theorem discr_one_norm_sq_partial : forall q blas (axes : list (@axis R)),
+Theorem discr_one_norm_sq_partial : forall q (axes : list (@axis R)),
   Forall ax_ok axes -> Forall ax_exact axes -> axes <> [] ->
   (q_unweighted_skips q = false \/ cell_volume axes <> 1) ->
-  leaf_inner q (LDiscr blas axes LDefault (PFin 2)) (repeat 1 (npoints axes)) (repeat 1 (npoints axes))
+  leaf_inner q (LDiscr axes LDefault (PFin 2)) (repeat 1 (npoints axes)) (repeat 1 (npoints axes))
   = Ok (extent_volume axes).
 Proof. exact discr_one_inner. Qed.
 Print Assumptions discr_one_norm_sq_partial.
 
-Theorem discr_one_norm_sq_refuted : exists q blas (axes : list (@axis R)),
+Theorem discr_one_norm_sq_refuted : exists q (axes : list (@axis R)),
   q_unweighted_skips q = true /\ Forall ax_ok axes /\ Forall ax_exact axes /\ axes <> [] /\
-  leaf_inner q (LDiscr blas axes LDefault (PFin 2)) (repeat 1 (npoints axes)) (repeat 1 (npoints axes))
+  leaf_inner q (LDiscr axes LDefault (PFin 2)) (repeat 1 (npoints axes)) (repeat 1 (npoints axes))
   <> Ok (extent_volume axes).
 Proof. exact discr_one_refuted. Qed.
 Print Assumptions discr_one_norm_sq_refuted.
@@ -145,14 +146,14 @@ Print Assumptions discr_one_norm_sq_refuted.
 (* the same on uniform_discr inputs: [specs] lists, per axis, the number of points n >= 1, the
    interval a < b and nodes_on_bdry = (bl, br); default weighting, exponent 2.  Then
    <one, one> = prod (b - a)  and  ||one|| = sqrt(prod (b - a)), under the same side condition. *)
-Theorem uniform_discr_one_norm_is_sqrt_volume_partial : forall q blas (specs : list axspec),
+Theorem uniform_discr_one_norm_is_sqrt_volume_partial : forall q (specs : list axspec),
   specs <> [] -> Forall spec_ok specs ->
   let axes := map axis_of specs in
   let one := repeat 1 (npoints axes) in
   (q_unweighted_skips q = false \/ cell_volume axes <> 1) ->
-  leaf_inner q (LDiscr blas axes LDefault (PFin 2)) one one
+  leaf_inner q (LDiscr axes LDefault (PFin 2)) one one
     = Ok (fold_right (fun s acc => (s_b s - s_a s) * acc) 1 specs) /\
-  leaf_norm q (LDiscr blas axes LDefault (PFin 2)) one
+  leaf_norm q (LDiscr axes LDefault (PFin 2)) one
     = Ok (sqrt (fold_right (fun s acc => (s_b s - s_a s) * acc) 1 specs)).
 Proof. exact uniform_discr_one_norm. Qed.
 Print Assumptions uniform_discr_one_norm_is_sqrt_volume_partial.
@@ -190,7 +191,7 @@ Proof. exact pspace_ips. Qed.
 Print Assumptions pspace_inner_product_space.
 
 Example pspace_premise_satisfiable :
-  let lf := SLeaf (LTensor true false (LConst 2) (PFin 2)) in
+  let lf := SLeaf (LTensor (LConst 2) (PFin 2)) in
   let s := SProd (PWArr [1; 3]) (PFin 2) [lf; SProd (PWConst (/ 2)) (PFin 2) [lf]] in
   hshape s (ENode [ELeaf [1; 2]; ENode [ELeaf [0; 5; 1]]]).
 Proof. exact hilbert_tree_example. Qed.
@@ -247,13 +248,13 @@ Print Assumptions complex_cauchy_schwarz.
 (* DiscretizedSpace._norm scales boundary slices by frac^(1/p) and calls the tensor norm:
    the result IS the documented weighted p-norm, no exception is raised *)
 Theorem leaf_norm_documented : forall q (lf : @leaf R) (x : list R),
-  leaf_okp lf (length x) -> x <> [] -> leaf_norm q lf x = Ok (leaf_norm_v q lf x).
+  leaf_okp lf (length x) -> leaf_norm q lf x = Ok (leaf_norm_v q lf x).
 Proof. exact leaf_norm_value. Qed.
 Print Assumptions leaf_norm_documented.
 
 (* dist(x, y) = norm(x - y) on every leaf, including DiscretizedSpace._dist which scales x and y separately *)
 Theorem leaf_dist_is_norm_of_difference : forall q (lf : @leaf R) (x y : list R),
-  leaf_okp lf (length x) -> x <> [] -> length y = length x ->
+  leaf_okp lf (length x) -> length y = length x ->
   leaf_dist q lf x y = Ok (leaf_norm_v q lf (vsub x y)).
 Proof. exact leaf_dist_value. Qed.
 Print Assumptions leaf_dist_is_norm_of_difference.
@@ -325,8 +326,8 @@ Print Assumptions pspace_dist_is_norm_of_difference_and_symmetric.
 (* non-vacuity of [normable] with mixed exponents: an exponent-inf product of an exponent-1 tensor
    space and an exponent-3 product space *)
 Example normable_example :
-  let l1 := SLeaf (LTensor true false (LConst 2) (PFin 1)) in
-  let l3 := SLeaf (LTensor true false (LArr [1; 2]) (PFin 3)) in
+  let l1 := SLeaf (LTensor (LConst 2) (PFin 1)) in
+  let l3 := SLeaf (LTensor (LArr [1; 2]) (PFin 3)) in
   let s := SProd (PWArr [1; 3]) PInf [l1; SProd (PWConst (/ 2)) (PFin 3) [l3; l1]] in
   normable wit_quirks s (ENode [ELeaf [1; 2]; ENode [ELeaf [0; 5]; ELeaf [1]]]).
 Proof. exact normable_example_proof. Qed.
@@ -383,3 +384,52 @@ Theorem complex_pspace_inner_positive : forall q (s : @space R) (x0 : @elem R), 
     (re = 0 -> Forall (fun t => t = 0) (flat xr) /\ Forall (fun t => t = 0) (flat xi)).
 Proof. exact csp_inner_positive. Qed.
 Print Assumptions complex_pspace_inner_positive.
+
+(* ================= tie to the source by regeneration ================= *)
+(* Gen/Weighting.v is re-emitted from the CURRENT source on every run by translate/weighting.py
+   (fail closed).  Over ANY carrier (so for the executed Q instance and the proved R instance) the
+   hand-written model computes exactly what the generated dispatch tables say: the three-way
+   exponent dispatch and formulas of NumpyTensorSpaceConstWeighting.norm/.dist, the inner formulas
+   of both tensor weightings, the combination rules of ProductSpaceConstWeighting.norm/.dist and
+   ProductSpaceArrayWeighting.norm, the disjunction in DiscretizedSpace.is_uniformly_weighted (the
+   model's variant switches [gen_quirks] are read off the generated code), the per-slice factor of
+   _scaling_func_list and the default weighting of uniform_discr_frompartition. *)
+Theorem model_follows_generated_dispatch : forall (T : Type) (HN : Num T) (HR : Root T),
+  (forall (c : T) p x, t_norm_v (WConst c) p x = eval_tab c [] p x [] [] gen_tconst_norm) /\
+  (forall (c : T) p x y, t_dist_v (WConst c) p x y = eval_tab c [] p x y [] gen_tconst_dist) /\
+  (forall (c : T) p x y, t_inner_v (WConst c) x y = eval c [] p x y [] gen_tconst_inner) /\
+  (forall (a : list T) p x y, t_inner_v (WArr a) x y = eval nzero a p x y [] gen_tarr_inner) /\
+  (forall (c : T) p dn n, lpnorm p dn = Ok n ->
+     ps_dist_comb_const c p dn = Ok (eval_tab c [] p [] [] dn gen_pconst_dist)) /\
+  (forall (c : T) p norms n, lpnorm p norms = Ok n ->
+     ps_norm_comb (PWConst c) p norms = Ok (eval_tab c [] p [] [] norms gen_pconst_norm)) /\
+  (forall (a : list T) p norms,
+     ps_norm_comb (PWArr a) p norms = lpnorm p (eval_scale_tab a p norms gen_parr_norm_scaling)) /\
+  (forall (axes : list (@axis T)) (w : @tweight T) p,
+     unif_weighted gen_quirks axes w p = existsb (eval_uatom axes w p) gen_unif_weighted) /\
+  (forall (r : T -> T) (f : T), (if close1 f then none_ else r f) = eval_side gen_scaling r f) /\
+  (forall (axes : list (@axis T)) p,
+     d_weight axes LDefault p = WConst (eval_default gen_default_weighting axes p)).
+Proof. exact model_follows_generated. Qed.
+Print Assumptions model_follows_generated_dispatch.
+
+(* _inner_default, regenerated decision tree: for every size regime (below / above THRESHOLD_MEDIUM)
+   real dtypes run the bilinear sum and complex dtypes the sum with the second argument conjugated
+   -- the two kernels the model uses ([dot], [c_inner_v]); moving a condition breaks this proof *)
+Theorem inner_kernel_dispatch_all_sizes : forall large : bool,
+  ksel true large gen_inner_default = KBilinear /\ ksel false large gen_inner_default = KConjSecond.
+Proof. exact tie_inner_default. Qed.
+Print Assumptions inner_kernel_dispatch_all_sizes.
+
+(* ================= executed instance = rational restriction of the proved instance ================= *)
+(* The inner product of every space tree (tensor and discretized leaves with partitions,
+   boundary-cell fractions, isclose snapping, boundary weight array, is_uniformly_weighted; nested
+   product spaces with every weighting) evaluated at Q by the correspondence shards IS the model the
+   theorems above speak about, restricted to rationals: Q2R commutes with [sp_inner], error
+   outcomes included.  [space_divs_ok]: the grid of every axis with n <> 1 points has nonzero
+   stride (the only divisions of the root-free model). *)
+Theorem inner_Q_instance_is_restriction_of_R_instance : forall q (s : @space Q) (x y : @elem Q),
+  space_divs_ok s ->
+  omap Q2R (sp_inner q s x y) = sp_inner q (space_map Q2R s) (elem_map Q2R x) (elem_map Q2R y).
+Proof. exact sp_inner_transfer. Qed.
+Print Assumptions inner_Q_instance_is_restriction_of_R_instance.
